@@ -57,6 +57,8 @@ def build_array(a):
 
 
 def cell_of(x):
+    if isinstance(x, (int, np.integer)) and not isinstance(x, (bool, np.bool_)):
+        return int(x)          # exact for 64-bit integers beyond 2^53
     try:
         z = complex(x)
     except Exception:  # noqa: BLE001
@@ -134,7 +136,10 @@ def handle(p):
             try:
                 res = {"t": "done"}
                 if kind == "set":
-                    c.array = build_array(o["arr"])
+                    if o.get("via") == "array_2d" and bucket == "photon":
+                        c.array_2d = build_array(o["arr"])
+                    else:
+                        c.array = build_array(o["arr"])
                 elif kind == "set3d":
                     c.array_3d = build_array(o["arr"])
                 elif kind == "update":
@@ -158,7 +163,13 @@ def handle(p):
                 elif kind == "empty":
                     c.empty()
                 elif kind == "read":
-                    res = {"t": "arr", "arr": describe(c.array)}
+                    if o.get("via") == "array_2d" and bucket == "photon":
+                        res = {"t": "arr", "arr": describe(c.array_2d)}
+                    else:
+                        res = {"t": "arr", "arr": describe(c.array)}
+                elif kind == "asarray":
+                    got = np.asarray(c)
+                    res = {"t": "arr", "arr": describe(got)}
                 elif kind == "read3d":
                     res = {"t": "arr", "arr": describe(c.array_3d)}
                 elif kind == "eq":
